@@ -68,7 +68,10 @@ pub struct Interpreter<TStdlib: Stdlib, TStdIn: Input, TStdOut: Printer, TLpt1: 
     /// Temporarily holds byref values that are to be copied back to the calling context
     by_ref_stack: VecDeque<Variant>,
 
-    function_result: Option<Variant>,
+    /// Holds the results of the functions that have returned but whose result has not been
+    /// consumed yet. More than one can be pending: writing back a by-ref argument such as
+    /// `A(F(1))` calls `F` again between the return of the outer function and the use of its result.
+    function_results: Vec<Variant>,
 
     value_stack: Vec<Variant>,
 
@@ -159,11 +162,11 @@ impl<TStdlib: Stdlib, TStdIn: Input, TStdOut: Printer, TLpt1: Printer> Interpret
     }
 
     fn take_function_result(&mut self) -> Option<Variant> {
-        self.function_result.take()
+        self.function_results.pop()
     }
 
     fn set_function_result(&mut self, v: Variant) {
-        self.function_result = Some(v);
+        self.function_results.push(v);
     }
 
     fn var_path_stack(&mut self) -> &mut VecDeque<Path> {
@@ -293,7 +296,7 @@ impl<TStdlib: Stdlib, TStdIn: Input, TStdOut: Printer, TLpt1: Printer>
             user_defined_types,
             var_path_stack: VecDeque::new(),
             by_ref_stack: VecDeque::new(),
-            function_result: None,
+            function_results: vec![],
             value_stack: vec![],
             last_error_address: None,
             last_error_code: None,
@@ -670,6 +673,7 @@ impl<TStdlib: Stdlib, TStdIn: Input, TStdOut: Printer, TLpt1: Printer>
             var_path_stack: self.var_path_stack.len(),
             by_ref_stack: self.by_ref_stack.len(),
             states: self.context.states_len(),
+            function_results: self.function_results.len(),
             stacktrace: self.stacktrace.clone(),
         };
         if let Some(last) = self.statement_snapshots.last_mut() {
@@ -688,7 +692,7 @@ impl<TStdlib: Stdlib, TStdIn: Input, TStdOut: Printer, TLpt1: Printer>
             self.by_ref_stack.truncate(snapshot.by_ref_stack);
             self.context.truncate_states(snapshot.states);
             self.stacktrace = snapshot.stacktrace.clone();
-            self.function_result = None;
+            self.function_results.truncate(snapshot.function_results);
         }
     }
 
@@ -776,6 +780,7 @@ struct StatementSnapshot {
     var_path_stack: usize,
     by_ref_stack: usize,
     states: usize,
+    function_results: usize,
     stacktrace: Vec<Position>,
 }
 
